@@ -59,20 +59,6 @@ type zz4E struct {
 	entry       Entry
 }
 
-func zz4ID(i int) githash.Hash {
-	h := make([]byte, 20)
-	h[0] = 0xee
-	h[19] = byte(i)
-	return githash.Hash(h)
-}
-
-func zz4Target(i int) githash.Hash {
-	h := make([]byte, 20)
-	h[0] = 0xcc
-	h[19] = byte(i)
-	return githash.Hash(h)
-}
-
 func zz4Classify(err error) int {
 	switch {
 	case err == nil:
